@@ -79,7 +79,11 @@ Definition cookie_of_off (o : N) : N := (o - reserved)%N.
    protocol (step, what): a Forget that does not balance the lookups
    handed out, reserved entries other than "." "..", an inode / file
    handle that was never allocated, a directory entry type that is not the
-   object's type, attribute bitmaps other than the requested ones. *)
+   object's type, attribute bitmaps other than the requested ones.  Entries
+   that start with "C14:" are reported under that name: a call that did
+   not return within the harness' watchdog ("C14:call-blocked-forever:
+   <method>"; every call of the model returns), for histories of any front
+   end, the direct API included. *)
 Record fcase := mkFCase {
   fc_front : string;
   fc_case : case;
@@ -103,14 +107,25 @@ Definition relabel (front : string) (v : verdict) : verdict :=
   | VViolation i k => if String.eqb k known_signature then v else VViolation i (k ++ suffix front i)
   end.
 
+Definition step_suffix (front : string) (i : nat) : string :=
+  if String.eqb front "" then "@" ++ nat_str i else suffix front i.
+
+Definition proto_kind (front : string) (i : nat) (k : string) : string :=
+  (if String.prefix "C14:" k then k else "C13:front:" ++ k) ++ step_suffix front i.
+
+(* The first entry of [fc_proto] against the verdict of [check_case]: the
+   earlier one is reported; at the same step both are (the driver reads
+   "kind@step;kind@step" as several kinds, each filtered by property). *)
 Definition check_fcase (fc : fcase) : verdict :=
   let v := relabel (fc_front fc) (check_case (fc_case fc)) in
   match fc_proto fc with
   | [] => v
   | (i, k) :: _ =>
-    let pv := VViolation i ("C13:front:" ++ k ++ suffix (fc_front fc) i) in
+    let pk := proto_kind (fc_front fc) i k in
     match v with
-    | VViolation j _ => if Nat.leb j i then v else pv
-    | _ => pv
+    | VViolation j vk =>
+      if Nat.ltb j i then v else
+      if Nat.eqb j i then VViolation i (vk ++ ";" ++ pk) else VViolation i pk
+    | _ => VViolation i pk
     end
   end.
